@@ -49,6 +49,9 @@ type Disk struct {
 
 	// Park makes every operation a scheduler park point.
 	Park bool
+	// ErrWraps, if set, is wrapped into every injected error (context.DeadlineExceeded,
+	// context.Canceled: a datastore's own timeout is not the caller's).
+	ErrWraps error
 	// Latency, if set, is slept (virtual time) inside each operation.
 	Latency func(op string) time.Duration
 	// Fault decides whether an operation fails. Called with the operation
@@ -92,7 +95,14 @@ func (d *Disk) apply(e Entry) {
 
 // Blackhole detaches the disk: writes succeed and vanish, reads see the frozen
 // state. Used for the instance that "died" in a crash so it can be stopped.
-func (d *Disk) Blackhole() { d.mu.Lock(); d.blackhole = true; d.Park = false; d.Fault = nil; d.Latency = nil; d.mu.Unlock() }
+func (d *Disk) Blackhole() {
+	d.mu.Lock()
+	d.blackhole = true
+	d.Park = false
+	d.Fault = nil
+	d.Latency = nil
+	d.mu.Unlock()
+}
 
 func (d *Disk) Log() []Entry {
 	d.mu.Lock()
@@ -131,7 +141,11 @@ func (d *Disk) Snapshot() map[string]string {
 	return m
 }
 
-func (d *Disk) Counts() (reads, writes int) { d.mu.Lock(); defer d.mu.Unlock(); return d.reads, d.writes }
+func (d *Disk) Counts() (reads, writes int) {
+	d.mu.Lock()
+	defer d.mu.Unlock()
+	return d.reads, d.writes
+}
 
 // pre runs the seam part common to all ops: park, latency, fault decision.
 func (d *Disk) pre(class, op, key string) error {
@@ -163,6 +177,11 @@ func (d *Disk) pre(class, op, key string) error {
 			if d.Sim != nil {
 				d.Sim.Fault("disk-" + class + "-error")
 				d.Sim.Log.Addf("disk %s %s %s -> injected error", d.Name, op, key)
+			}
+			if err == ErrInjected && d.ErrWraps != nil {
+				// the same refusal, dressed as the kind of error a real datastore may wrap
+				// (its own timeout, a cancelled compaction): callers must not read it as theirs
+				err = fmt.Errorf("%w: %w", ErrInjected, d.ErrWraps)
 			}
 			return err
 		}
@@ -279,7 +298,7 @@ func (d *Disk) Delete(ctx context.Context, key ds.Key) error {
 }
 
 func (d *Disk) Sync(ctx context.Context, prefix ds.Key) error { return nil }
-func (d *Disk) Close() error                                   { return nil }
+func (d *Disk) Close() error                                  { return nil }
 
 // --- batch -------------------------------------------------------------------
 
@@ -424,10 +443,12 @@ func (t *txn) Query(ctx context.Context, q query.Query) (query.Results, error) {
 	sort.Slice(es, func(i, j int) bool { return es[i].Key < es[j].Key })
 	return query.NaiveQueryApply(q, query.ResultsWithEntries(q, es)), nil
 }
-func (t *txn) Put(ctx context.Context, key ds.Key, value []byte) error { return errors.New("read-only") }
-func (t *txn) Delete(ctx context.Context, key ds.Key) error            { return errors.New("read-only") }
-func (t *txn) Commit(ctx context.Context) error                        { return nil }
-func (t *txn) Discard(ctx context.Context)                             {}
+func (t *txn) Put(ctx context.Context, key ds.Key, value []byte) error {
+	return errors.New("read-only")
+}
+func (t *txn) Delete(ctx context.Context, key ds.Key) error { return errors.New("read-only") }
+func (t *txn) Commit(ctx context.Context) error             { return nil }
+func (t *txn) Discard(ctx context.Context)                  {}
 
 // Flavour wraps the disk the way an application would hand it to
 // store.NewStore: "plain" = Batching only; "ctx" = context-aware datastore
